@@ -28,7 +28,18 @@ FN = [
     (("sinkf", "record"), ("i", "p"), "none"),
     (("sw", 2, True), ("i",), "tn"),
     (("flatten",), ("p", "tn"), "i"),
+    (("remove", "odd"), ("i",), "i"),
+    (("mapargs",), ("i",), "i"),
+    (("filterargs",), ("i",), "i"),
+    (("starmapargs",), ("p",), "i"),
+    (("accws",), ("i",), "p"),
+    (("accrsws",), ("i",), "p"),
+    (("accnone",), ("i",), "i"),
+    (("punique", 2, "parity", "first"), ("i",), "p"),
+    (("sinkf", "rec3"), ("i", "p"), "none"),
 ]
+USER_FN = ("map", "starmap", "filter", "acc", "unique", "partition", "punique", "sinkf", "remove", "mapargs", "filterargs", "starmapargs",
+           "accws", "accrsws", "accnone")
 
 
 def programs(thorough):
@@ -43,7 +54,13 @@ def programs(thorough):
             if t in it:
                 yield from rec(prefix + [spec], c01.out_type(t, ot), maxlen)
     for ch in rec([], "i", 3 if thorough else 2):
-        if any(sp[0] in ("map", "starmap", "filter", "acc", "unique", "partition", "punique", "sinkf") for sp in ch):
+        if any(sp[0] in USER_FN for sp in ch):
+            progs.append(("chain", c01.prog_chain(ch), ("s",)))
+    if not thorough:
+        # a failing node behind a one-to-many node (needs three nodes: make the pieces, split them, fail)
+        for ch in ((("map", "pair"), ("flatten",), ("map", "inc")), (("map", "pair"), ("flatten",), ("acc", "add", 0, False)),
+                   (("sw", 2, True), ("flatten",), ("sinkf", "record")), (("map", "pair"), ("flatten",), ("filter", "odd")),
+                   (("accws",), ("flatten",), ("unique", None, "parity", True))):
             progs.append(("chain", c01.prog_chain(ch), ("s",)))
     # fan-out: the second branch fails after the first one has completed (and vice versa)
     for a, b in ((("map", "inc"), ("acc", "add", 0, False)), (("acc", "add", None, False), ("sinkf", "record")),
@@ -160,6 +177,11 @@ class _FailOracle:
 
 
 class FailAsync(_FailOracle, c04.RefChain):
+    def md(self, x, i):
+        if self.params.get("nomd"):
+            return None           # elements without metadata: _emit's branch that never defers a release
+        return super().md(x, i)
+
     def make_sink_fn(self, kind, name):
         inner = super().make_sink_fn(kind, name)
         pre = self.params.get("prefail")
@@ -239,7 +261,8 @@ def factory(key):
     mode, node, kind, n = key[:4]
     cls = FailAsync if mode.startswith("async") else FailThreaded
     prefail = (2, key[4]) if len(key) > 4 else None
-    return lambda: cls(prop="C04", nodes=(node,), kind=kind, mode="await", n=n, fail=0 if prefail else 1, prefail=prefail)
+    nomd = len(key) > 5 and key[5] == "nomd"
+    return lambda: cls(prop="C04", nodes=(node,), kind=kind, mode="await", n=n, fail=0 if prefail else 1, prefail=prefail, nomd=nomd)
 
 
 def sched_plan(ctx):
@@ -252,6 +275,7 @@ def sched_plan(ctx):
     for node in ("direct", "map"):
         for how in ("future", "gen"):
             jobs.append((("async-prefail", node, "future", 3, how), 1))
+            jobs.append((("async-prefail", node, "future", 3, how, "nomd"), 1))
     return jobs
 
 
@@ -281,7 +305,7 @@ _q_replay = replay
 
 
 def replay(ctx, rep):   # noqa: F811
-    if rep.get("engine") == "sched":
+    if str(rep.get("engine", "")).startswith("sched"):
         x = spar.replay_finding(MOD, rep)
         for v in x.violations:
             print("  replayed:", v)
